@@ -9,7 +9,7 @@ def setup(J):
         def add(g, i, m, kind="func", mode="dpor", **kw):
             j = J.wf("C12", g, i, 1, m, kind, mode=mode, oracles=["nohang", "clean"], tier=tier, events_dep=False, race=True, **kw)
             jobs.append(J.with_delay_fallback(j, 1 if q else 2))
-        add("g2", 2, 2); add("g2", 1, 1, "cmd"); add("g5", 2, 2); add("g4", 1, 2); add("g7", 1, 2); add("g8", 1, 2); add("g13", 1, 2, cores=[1, 2]); add("g14a", 1, 1); add("g14d", 1, 1); add("g14e", 1, 2, mode="delay", delay=1, id="C12-g14e-i1-m2-delay")
+        add("g2", 2, 2); add("g2", 1, 1, "cmd"); add("g5", 2, 2); add("g4", 1, 2); add("g7", 1, 2); add("g8", 1, 2); add("g13", 1, 2, cores=[1, 2]); add("g14a", 1, 1); add("g14d", 1, 1); add("g2", 0, 1, id="C12-g2-empty-stream"); add("g3", 0, 2, id="C12-g3-empty-stream"); add("g9", 0, 2, id="C12-g9-empty-streams"); add("g14e", 1, 2, mode="delay", delay=1, id="C12-g14e-i1-m2-delay")
         # fan-out of one out-port with a tagging component on one arm: closed search can be long -> delay bound first
         add("g14c", 1, 1, budget=120, id="C12-g14c-i1-m1-func-dpor")  # smallest fan-out with a tagging arm: closes (4.3k executions), the known AddTag race shows up at execution ~20
         add("g14", 1, 1, id="C12-g14-i1-m1-func-dpor")  # closed search: the known AddTag race shows up after some hundred executions
